@@ -405,6 +405,66 @@ theorem C01_needs_copy :
                                               { id := 1, start := 2, rate := 1024, nrd := 30 }] } }], 5, ?_⟩
   decide +kernel
 
+/-! ### the next simulation number on the same infrastructure object -/
+
+theorem loadScenario_spec (lists : List (List EmId)) (g : Infra) (hf : fresh g)
+    (hl : lists.length = g.length) :
+    pristine (loadScenario lists g) ∧
+    (loadScenario lists g).map (·.src) = lists.map (fun l => ({ pending := l } : Src)) := by
+  induction lists generalizing g with
+  | nil => cases g with
+    | nil => exact ⟨fun s hs => (nomatch hs), rfl⟩
+    | cons a t => simp at hl
+  | cons l ls ih =>
+    cases g with
+    | nil => simp at hl
+    | cons a t =>
+      have hft : fresh t := fun s hs => hf s (List.mem_cons_of_mem _ hs)
+      have := ih t hft (by simpa using hl)
+      have ha := hf a (List.mem_cons_self ..)
+      constructor
+      · intro s hs
+        simp only [loadScenario, List.zipWith_cons_cons, List.mem_cons] at hs
+        rcases hs with rfl | hs
+        · exact ha.1
+        · exact this.1 s hs
+      · simp only [loadScenario, List.zipWith_cons_cons, List.map_cons]
+        congr 1
+        · rw [ha.2]
+        · exact this.2
+
+/-- **history independence across simulation numbers.**  Under the copy the infrastructure object of
+the manager is never run, so it stays `fresh`; loading the scenario of the next simulation number
+into it then confronts every program — whatever ran before on copies, whatever the programs do —
+with exactly the emissions of THAT scenario that start within the period -/
+theorem C01_next_simulation (N : Nat) (workers : List (List (Nat × Beh))) (g : Infra)
+    (lists : List (List EmId)) (hf : fresh g) (hl : lists.length = g.length)
+    (hs : ∀ l ∈ lists, sortedByStart l = true) :
+    ∀ x ∈ runScheduleO .copied (N + 1) workers (loadScenario lists g),
+      x.2 = lists.map (fun l => l.filter (fun e => decide (e.start ≤ ((N + 1 : Nat) : Int) - 1))) := by
+  have sp := loadScenario_spec lists g hf hl
+  intro x hx
+  have := C01_objects N workers (loadScenario lists g) sp.1 (by
+    intro s hsm
+    have : s.src ∈ (loadScenario lists g).map (·.src) := List.mem_map.2 ⟨s, hsm, rfl⟩
+    rw [sp.2] at this
+    obtain ⟨l, hlm, hle⟩ := List.mem_map.1 this
+    rw [← hle]
+    exact hs l hlm) x hx
+  rw [this, sp.2]
+  simp [expected, Src.all, List.map_map, Function.comp]
+
+/-- without the copy, state survives into the next simulation number: the components still hold the
+emissions of simulation 0 and the cursor still points at a simulation-0 emission when the lists of
+simulation 1 are loaded -/
+theorem C01_next_simulation_needs_copy :
+    ∃ (g : Infra) (l0 l1 : List (List EmId)) (N : Nat), fresh g ∧
+      (facedBy repairAll N (loadScenario l1 (facedBy repairAll N (loadScenario l0 g)).2)).1 ≠
+        expected N (l1.map (fun l => ({ pending := l } : Src))) := by
+  refine ⟨[{ tag := 0, src := { pending := [] } }],
+          [[{ id := 0, start := 1 }, { id := 1, start := 9 }]], [[{ id := 0, start := 2 }]], 5, ?_⟩
+  decide +kernel
+
 /-! ### obligations on the wiring extracted from the current source (Generated/Wiring.lean) -/
 
 open Generated.Wiring in
@@ -459,6 +519,15 @@ handed (`infra._sites` of the program's own infrastructure is passed to `Program
 every schedule): no site — and with it its pending emission lists — can drop out of what a program
 faces because of the methods it deploys -/
 theorem sites_list_untouched : Generated.Wiring.sitesListMutations = [] := by
+  decide
+
+open Generated.Wiring in
+/-- state that every infrastructure copy of one process would share: the only class- / module-level
+mutable container of virtual_world/* and emission_types/* is the constant dtype table of `Emission`;
+nothing mutates such a container in place; no function of these packages is cache-decorated -/
+theorem no_shared_state_between_copies :
+    classLevelContainers = ["Emission.EMIS_SUMMARY_DTYPES"] ∧ classLevelContainerMutations = [] ∧
+    cachedFunctions = [] := by
   decide
 
 /-- C01 for the code as extracted today -/
